@@ -38,7 +38,7 @@ theorem emitAll_none (f : Bytes → Option Bytes) : ∀ (toks : List Bytes) (n :
 theorem C06_faultfree (f : Bytes → Option Bytes) (bs : Bytes) :
     runStream f bs none none =
       (processLines f (scanTokens (splitNL bs)).1, if (scanTokens (splitNL bs)).2 then .tooLong else .ok) := by
-  simp only [runStream]
+  simp only [runStream, Bool.false_and, Bool.false_eq_true, if_false]
   rcases h : scanTokens (splitNL bs) with ⟨toks, tl⟩
   simp only [emitAll_none]
   cases tl <;> simp
@@ -169,7 +169,7 @@ theorem emitAll_prefix (f : Bytes → Option Bytes) (k : Option Nat) : ∀ (toks
 theorem C08_write_prefix (f : Bytes → Option Bytes) (bs : Bytes) (k : Nat) :
     (runStream f bs none (some k)).1 <+: (runStream f bs none none).1 := by
   rw [C06_faultfree]
-  simp only [runStream]
+  simp only [runStream, Bool.false_and, Bool.false_eq_true, if_false]
   rcases h : scanTokens (splitNL bs) with ⟨toks, tl⟩
   have := emitAll_prefix f (some k) toks 0
   rcases h2 : emitAll f (some k) toks 0 with ⟨out, wf⟩
@@ -209,7 +209,9 @@ theorem C08_ok_iff (f : Bytes → Option Bytes) (bs : Bytes) (r w : Option Nat) 
         simp only [runStream, hk, if_true] at h
         rcases hst : scanTokens (splitNL (List.take k bs)) with ⟨toks, tl⟩
         rw [hst] at h
-        rcases he : emitAll f w toks 0 with ⟨o, wf⟩
+        simp only [] at h
+        generalize (if (true && !tl && endsUnterminated (List.take k bs)) = true then toks.dropLast else toks) = T at h
+        rcases he : emitAll f w T 0 with ⟨o, wf⟩
         simp only [he] at h
         cases wf <;> cases tl <;> simp at h
       · intro ⟨h1, _, _⟩
@@ -217,7 +219,7 @@ theorem C08_ok_iff (f : Bytes → Option Bytes) (bs : Bytes) (r w : Option Nat) 
         omega
     · -- read fault position beyond the input: as without it
       have hk' : bs.length < k := by omega
-      simp only [runStream, hk, if_false]
+      simp only [runStream, hk, if_false, Bool.false_and, Bool.false_eq_true]
       rcases hst : scanTokens (splitNL bs) with ⟨toks, tl⟩
       cases w with
       | none =>
@@ -230,7 +232,7 @@ theorem C08_ok_iff (f : Bytes → Option Bytes) (bs : Bytes) (r w : Option Nat) 
         simp only [Nat.sub_zero] at hf
         cases wf <;> cases tl <;> simp_all
   | none =>
-    simp only [runStream]
+    simp only [runStream, Bool.false_and, Bool.false_eq_true, if_false]
     rcases hst : scanTokens (splitNL bs) with ⟨toks, tl⟩
     cases w with
     | none =>
@@ -242,6 +244,28 @@ theorem C08_ok_iff (f : Bytes → Option Bytes) (bs : Bytes) (r w : Option Nat) 
       rw [he] at hf
       simp only [Nat.sub_zero] at hf
       cases wf <;> cases tl <;> simp_all
+
+theorem getLast?_append_cons {α} (a : List α) (b : α) (c : List α) : (a ++ b :: c).getLast? = (b :: c).getLast? := by
+  induction a with
+  | nil => rfl
+  | cons x t ih =>
+    cases h : t ++ b :: c with
+    | nil => simp at h
+    | cons y u => simp only [List.cons_append, h, List.getLast?_cons_cons]; rw [← h]; exact ih
+
+/-- a text made of terminated lines does not end inside a line -/
+theorem endsUnterminated_joinLF : ∀ (ls : List Bytes), endsUnterminated (joinLines false ls) = false
+  | [] => rfl
+  | [l] => by
+    simp only [joinLines, Bool.false_eq_true, if_false, List.append_nil, endsUnterminated]
+    rw [getLast?_append_cons]; rfl
+  | l :: m :: rest => by
+    have ih := endsUnterminated_joinLF (m :: rest)
+    simp only [joinLines, Bool.false_eq_true, if_false, List.append_assoc, List.singleton_append, endsUnterminated] at ih ⊢
+    rw [getLast?_append_cons]
+    cases hj : m ++ 10 :: joinLines false rest with
+    | nil => simp at hj
+    | cons y u => rw [hj] at ih; simpa [List.getLast?_cons_cons] using ih
 
 /-- **C08 (read fault at a line boundary: prefix)**: when the read fails right after a complete
     line (the cut does not split a line), what was written is the fault-free output of the lines
@@ -271,11 +295,83 @@ theorem C08_read_prefix (f : Bytes → Option Bytes) (ls more : List Bytes)
     show scanTokens (splitNL (joinLines false (ls ++ more))) = _
     rw [splitNL_joinLF _ hB]; exact scanTokens_short _ hlen
   rw [C06_faultfree, s2]
-  simp only [runStream, hk, if_true, htake, s1, emitAll_none]
+  simp only [runStream, hk, if_true, htake, s1, emitAll_none, endsUnterminated_joinLF, Bool.and_false, Bool.false_eq_true, if_false]
   constructor
   · simp only [List.map_append, Bool.false_eq_true, if_false]
     rw [C06_local]
     exact List.prefix_append _ _
   · simp
+
+/-! ### C08: a read fault ANYWHERE (also in the middle of a line) -/
+
+theorem splitNL_join_append (A : List Bytes) (hA : ∀ l ∈ A, ∀ b ∈ l, b ≠ 10) (x : Bytes) :
+    splitNL (joinLines false A ++ x) = A ++ splitNL x := by
+  induction A with
+  | nil => simp [joinLines]
+  | cons l rest ih =>
+    simp only [joinLines, Bool.false_eq_true, if_false, List.append_assoc, List.cons_append, List.nil_append]
+    rw [splitNL_line l (hA l (by simp)), ih (fun y hy => hA y (by simp [hy]))]
+
+theorem splitNL_no_nl : ∀ (p : Bytes), (∀ b ∈ p, b ≠ 10) → p ≠ [] → splitNL p = [p]
+  | [], _, h => absurd rfl h
+  | [b], hb, _ => by simp [splitNL, hb b (by simp)]
+  | b :: c :: t, hb, _ => by
+    have ih := splitNL_no_nl (c :: t) (fun x hx => hb x (by simp [hx])) (by simp)
+    simp only [splitNL, hb b (by simp), if_false] at ih ⊢
+    rw [ih]
+
+theorem scanTokens_append_short (A : List Bytes) (hA : ∀ a ∈ A, a.length ≤ maxLine) (X : List Bytes) :
+    scanTokens (A ++ X) = (A.map dropCR ++ (scanTokens X).1, (scanTokens X).2) := by
+  induction A with
+  | nil => simp
+  | cons a rest ih =>
+    have ha : ¬ a.length > maxLine := by have := hA a (by simp); omega
+    simp [scanTokens, ha, ih (fun x hx => hA x (by simp [hx]))]
+
+theorem endsUnterminated_append_ne (a p : Bytes) (hp : ∀ b ∈ p, b ≠ 10) (hne : p ≠ []) : endsUnterminated (a ++ p) = true := by
+  cases p with
+  | nil => exact absurd rfl hne
+  | cons b t =>
+    simp only [endsUnterminated]
+    rw [getLast?_append_cons]
+    have : (b :: t).getLast? = some ((b :: t).getLast (by simp)) := List.getLast?_eq_some_getLast _
+    rw [this]
+    have hm := hp _ (List.getLast_mem (l := b :: t) (by simp))
+    simpa using hm
+
+/-- **C08 (read fault anywhere)**: the input is some complete lines `A`, then a piece `p` of the next
+    line (possibly empty, possibly the whole line without its newline), then whatever else; the read
+    fails once `A` and `p` have been delivered.  What is written is exactly the fault-free output of the
+    complete lines `A` — the piece `p` is never processed, however it looks — this is a prefix of the
+    fault-free output of the whole input, and the run reports the read error -/
+theorem C08_read_cut (f : Bytes → Option Bytes) (A : List Bytes) (p rest : Bytes)
+    (hA : ∀ l ∈ A, ∀ b ∈ l, b ≠ 10) (hp : ∀ b ∈ p, b ≠ 10)
+    (hlenA : ∀ l ∈ A, l.length ≤ maxLine) (hlenp : p.length ≤ maxLine) :
+    let bs := joinLines false A ++ (p ++ rest)
+    let k := (joinLines false A ++ p).length
+    runStream f bs (some k) none = (processLines f (A.map dropCR), .readErr) ∧
+    processLines f (A.map dropCR) <+: (runStream f bs none none).1 := by
+  intro bs k
+  have hk : k ≤ bs.length := by simp [k, bs]
+  have htake : bs.take k = joinLines false A ++ p := by
+    have : bs = (joinLines false A ++ p) ++ rest := by simp [bs]
+    rw [this]; exact List.take_left
+  constructor
+  · simp only [runStream, hk, if_true, htake]
+    rw [splitNL_join_append A hA p]
+    by_cases hpe : p = []
+    · subst hpe
+      simp only [splitNL, List.append_nil, scanTokens_short A hlenA, endsUnterminated_joinLF, Bool.and_false,
+        Bool.false_eq_true, if_false, emitAll_none]
+    · rw [splitNL_no_nl p hp hpe, scanTokens_append_short A hlenA]
+      have hps : ¬ p.length > maxLine := by omega
+      simp only [scanTokens, hps, if_false, endsUnterminated_append_ne _ p hp hpe, Bool.not_false, Bool.and_self,
+        if_true, List.dropLast_concat, emitAll_none]
+      simp
+  · rw [C06_faultfree]
+    simp only [bs]
+    rw [splitNL_join_append A hA, scanTokens_append_short A hlenA]
+    simp only [C06_local]
+    exact List.prefix_append _ _
 
 end Anonymongo
